@@ -224,7 +224,7 @@ func emit(rr *RunResult, id, tier string, seed int64, wall float64, cacheHit boo
 			}
 			matched := false
 			for _, k := range known {
-				if k.Property == id && k.Status == "known" && k.Rule == o.Rule && k.Site == stripOrdinal(o.Site) {
+				if k.Property == id && k.Status == "known" && k.Rule == o.Rule && k.Site == o.Site {
 					matched = true
 					line := fmt.Sprintf("KNOWN-FINDING: property=%s rule=%s site=%q %s (%s)", id, o.Rule, o.Site, k.WhatFails, o.Pos)
 					knownHits = append(knownHits, line)
